@@ -8,7 +8,7 @@ patch=$(readlink -f "$1"); tier=$2; shift 2
 if [ -n "${TRY_SLOT:-}" ]; then work=/tmp/trypatch_slot_$TRY_SLOT; rm -rf "$work"; mkdir -p "$work"; else work=$(mktemp -d /tmp/trypatch.XXXXXX); fi
 git -C /repo archive HEAD | tar -x -C "$work"
 if ! git -C "$work" init -q 2>/dev/null; then :; fi
-( cd "$work" && patch -p1 --fuzz=3 -s < "$patch" >/dev/null 2>&1 ) || { echo "PATCH-DOES-NOT-APPLY $patch"; rm -rf "$work"; exit 3; }
+( cd "$work" && git apply "$patch" >/dev/null 2>&1 ) || { echo "PATCH-DOES-NOT-APPLY $patch"; rm -rf "$work"; exit 3; }
 for prop in "$@"; do
   out=$(cd /verif && VERIF_REPO="$work" VERIF_EVIDENCE_DIR="$work/evidence" ./check "$prop" "$tier" 2>&1)
   rc=$?
